@@ -56,6 +56,9 @@ def _sh(cmd, input=None, env=None, timeout=600, as_gb=None, cpu_s=None):
 RESOURCE_RCS = (124, -24, -9)     # wall timeout, SIGXCPU, SIGKILL (rlimit hard / OOM)
 
 
+FW = {}     # description -> filter word of the harness ("lDN10.6S1": library defaults, types 10 and 6 KEEP_NONE, type 1 KEEP_STRUCTURE)
+
+
 def hx(desc):
     return desc.encode("latin1").hex()
 
@@ -208,6 +211,9 @@ def make_cases(run):
     cases += [("valid", d) for d in valid]
     cases += [("untyped", G.gen_untyped(rng)) for _ in range(nunt)]
     cases += [("interleave-spec", d) for d in G.gen_interleave_spec(rng, 30 if quick else 400)]
+    for d, fw in G.gen_attached_spec(rng, 120 if quick else 1500):
+        FW[d] = fw
+        cases.append(("attached-spec", d))
     pool = valid[:2000] + G.HANDMADE + G.boundary_cases()[:40]
     cases += [("mutated", G.mutate(rng, rng.choice(pool))) for _ in range(nmut)]
     cases += [("arbitrary", G.arbitrary(rng)) for _ in range(narb)]
@@ -423,6 +429,77 @@ def spec_implicit_numa(run, cases, cres):
                 d[:100], [" ".join(x[:4]) for x in numa][:4]), replay_text(d, "\n".join(" ".join(x) for x in numa[:8])))
 
 
+def filter_pass(run, cases, model, cres, exe):
+    """Type filters (library defaults drop instruction caches and MemCaches; per-type KEEP_NONE / KEEP_STRUCTURE):
+    the NUMA nodes -- number, os_index, memory, locality -- are what the string says whatever the filters (filters never
+    apply to NUMA nodes; a node attached to a filtered level keeps that level's cpuset), and the kept levels are unchanged.
+    Judged (a) against the model's level records and (b), for canonical descriptions, against gen/synthetic_gen.py
+    att_expected, which uses neither the model nor the C code."""
+    rng = run.rng
+    sel = []
+    for idx, (kind, d) in enumerate(cases):
+        m, c = model.get(str(idx)), cres.get(str(idx))
+        if not m or not c or not c.get("loaded") or "crash" in c or len(c["objs"]) > 400 or has_dup_indexes(m["objs"]):
+            continue
+        if d in FW:
+            words = [FW[d]] + (["lD"] if FW[d] != "lD" else [])
+        elif "[" in d or re.search(r"(?i)l[123]i", d) or "memorysidecachesize" in d:
+            types = sorted(set(int(l.split()[1]) for l in m["objs"] if l.startswith("O ") and l.split()[1] != "4"))
+            words = ["lD"] if rng.random() < 0.6 or not types else ["l" + rng.choice("DA") + "N" + str(rng.choice(types))]
+        else:
+            continue
+        for k, w in enumerate(words):
+            sel.append(("%d_%d" % (idx, k), w, d, idx))
+    if run.tier == "quick" and len(sel) > 420:
+        keep = [s for s in sel if s[2] in FW]
+        rest = [s for s in sel if s[2] not in FW]
+        sel = keep + rest[:max(0, 420 - len(keep))]
+    fres = run_c(exe, [(i, w, d) for i, w, d, idx in sel])
+    fres.pop("__errors__", None)
+    for i, w, d, idx in sel:
+        f, m = fres.get(i), model[str(idx)]
+        if f is None:
+            continue
+        rtxt = lambda extra: replay_text(d, "mode: %s\n%s" % (w, extra))
+        if "crash" in f:
+            run.violation("filters-crash:" + crash_sig(f["crash"][1]), "crash loading %r with filters %s" % (d[:80], w), rtxt(f["crash"][1]))
+            continue
+        if not f["loaded"]:
+            run.violation("filters-load-fails", "%r does not load with filters %s" % (d[:80], w), rtxt(str(f["set"])))
+            continue
+        mm = re.fullmatch(r"l([DA])(?:N([0-9.]+))?(?:S([0-9.]+))?", w)
+        base = mm.group(1)
+        none = set(int(x) for x in (mm.group(2) or "").split(".") if x)
+        struct = set(int(x) for x in (mm.group(3) or "").split(".") if x)
+        memcache_kept = base == "A" and 15 not in none
+        removed = (none | ({10, 11, 12, 15} if base == "D" else set())) - struct
+        got_m = sorted((int(x[1]), int(x[2]), int(x[3]), tuple(sorted(int(p) for p in x[4].split(",")))) for x in (l.split() for l in f["objs"] if l.startswith("M ")))
+        exp = G.att_expected(d, memcache_kept)
+        if exp is not None:
+            run.bump("spec:numa-under-filters:" + ("ok" if got_m == exp else "MISMATCH"))
+            if got_m != exp:
+                run.violation("spec:numa-nodes-under-filters", "with filters %s the NUMA nodes loaded from %r are not those written: %d node(s) loaded, %d written; first difference loaded %s / written %s" % (
+                    w, d[:100], len(got_m), len(exp), [x for x in got_m if x not in exp][:1], [x for x in exp if x not in got_m][:1]), rtxt(""))
+                continue
+        mod_m = sorted((int(x[1]), int(x[2]), int(x[3]) if memcache_kept else 0, tuple(sorted(int(p) for p in x[4].split(",")))) for x in (l.split() for l in m["objs"] if l.startswith("M ")))
+        if got_m != mod_m:
+            run.violation("correspondence:numa-under-filters", "with filters %s the NUMA nodes of %r differ from the model's" % (w, d[:100]),
+                          rtxt("impl: %s\nmodel: %s" % (got_m[:6], mod_m[:6])), no_input=True)
+            continue
+        skip = set(struct) | removed | ({2} if (1 in removed or 1 in struct or 2 in struct) else set())
+        a = sorted(l for l in f["objs"] if l.startswith("O ") and int(l.split()[1]) not in skip)
+        b = sorted(l for l in m["objs"] if l.startswith("O ") and int(l.split()[1]) not in skip)
+        present_removed = [l for l in f["objs"] if l.startswith("O ") and int(l.split()[1]) in removed]
+        if present_removed:
+            run.violation("filtered-type-present", "objects of a type filtered KEEP_NONE are present (%s) for %r" % (w, d[:80]), rtxt("\n".join(present_removed[:4])))
+        elif a != b:
+            run.violation("correspondence:structure-under-filters", "with filters %s the kept levels of %r differ from the model's" % (w, d[:100]),
+                          rtxt("only impl: %s\nonly model: %s" % ([x for x in a if x not in b][:4], [x for x in b if x not in a][:4])), no_input=True)
+        else:
+            run.bump("filters:ok")
+            run.cov["traces_validated_against_impl"] += 1
+
+
 def verbose_pass(run, cases, model, cres, exe):
     """HWLOC_SYNTHETIC_VERBOSE=1: the messages format pointers into the description ('%s' of pos/attr/tmp).  Spec: the
     verbosity changes neither the verdict nor the loaded objects, every quoted text is a suffix of the description,
@@ -554,6 +631,9 @@ def check(run, replay=None):
         txt = open(replay).read()
         mm = re.search(r"^desc-hex: ([0-9a-f]*)$", txt, re.M)
         cases = [("replay", bytes.fromhex(mm.group(1)).decode("latin1"))] if mm else []
+        mw = re.search(r"^mode: (l\S+)$", txt, re.M)
+        if mm and mw:
+            FW[cases[0][1]] = mw.group(1)
     else:
         cases = make_cases(run)
     limit = 6000 if run.tier == "quick" else 20000
@@ -583,6 +663,7 @@ def check(run, replay=None):
     judge(run, cases, model, cres, exe, drv, limit)
     spec_interleaving(run, cases, cres)
     spec_implicit_numa(run, cases, cres)
+    filter_pass(run, cases, model, cres, exe)
     verbose_pass(run, cases, model, cres, exe)
     env_pass(run, cases, model, cres, exe)
     wf_pass(run, cases, model, items)
